@@ -240,7 +240,7 @@ def t2(ctx, res):
                         and any(norm(t) == f"cls.{p}" for t in (st.targets if isinstance(st, ast.Assign) else [st.target]))]
                 labs |= labels_of(vals[-1]) if vals else {"unset"}
             result[npass] = labs
-            unknown = unknown or any(x.startswith("other:") for x in labs)
+            unknown = unknown or any(x.startswith("other:") or x == "unset" for x in labs)
         good = result == {True: {"inherited"}, False: {"passed"}}
         res.judge(True if good else (None if unknown else False), new, f"cls.{p} = <{p} if passed else inherited {p}>",
                   detail={"not passed": sorted(result[True]), "passed": sorted(result[False])},
@@ -337,7 +337,16 @@ def t3(ctx, res):
                 res.violation(c.methods[dunder], f"{c.name}.{dunder}",
                               reason="the child walker reads a keyword with item access first and attribute access second: an element "
                                      "(or object class) that answers item/attribute look-ups itself hides its keyword values from it")
-    gp = ctx.func("_get_path")
+    gp0 = ctx.func("_get_path")
+
+    class _Scope:   # _get_path together with the private helpers it delegates to
+        body = list(gp0.body)
+        qualname = gp0.qualname
+    for site in ctx.inf.sites(gp0)[0]:
+        c_ = getattr(site, "callee", None)
+        if site.kind == "call" and c_ is not None and c_ is not gp0 and c_.module is gp0.module and c_.name.startswith("_"):
+            _Scope.body = _Scope.body + list(c_.body)
+    gp = _Scope
     res.judge(True if (has("isinstance(MV_n, list)", gp)) else None, gp, "isinstance(next_item, list)",
               reason="list-valued positions (tuple items, composition elements) are flattened")
     res.judge(True if (has("MV_e.values()", gp)) else None, gp, "list(element.values())", reason="`*` takes every value of a mapping")
@@ -501,10 +510,12 @@ def t3(ctx, res):
                     loop_keys |= keys or set()
     for k in ck:
         if k == "not":
-            ok = has("parse_element(MV_s['not'], MV_st)", comp)
+            ok = True if has("parse_element(MV_s['not'], MV_st)", vcomp) or has("parse_element(MV_s['not'], MV_st)", comp) else None
+        elif not loop_keys:
+            ok = None   # the per-keyword parsing loop was not recognised at all
         else:
             ok = k in loop_keys and has(f"MV_c[{k!r}]", comp)
-        res.check(ok, comp, f"composition keyword {k!r} is parsed recursively",
+        res.judge(ok, comp, f"composition keyword {k!r} is parsed recursively",
                   reason="each composition branch goes through parse_element")
     res.floor("composition_keywords", len(ck), 4)
     # parse sends each top-level definition through parse_element
@@ -920,9 +931,12 @@ def t6(ctx, res):
         "the anyOf composition": ["_compose_elements(AnyOf, MV_c['anyOf'])"],
         "the negation": ["Not(parse_element(MV_s['not'], MV_st))"],
     }
+    found_any_branch = any(any(has(pt, e) for e in parts for pt in needles[w_]) for w_ in
+                           ("allOf branches", "the oneOf composition", "the anyOf composition"))
     for what, pats in needles.items():
         found = any(has(pt, e) for e in parts for pt in pats)
-        res.judge(True if found else (None if not parts else False), comp, f"AllOf conjunction includes {what}",
+        # a missing contribution is a refutation only when the other branches are read in the recognised spelling
+        res.judge(True if found else (None if (not parts or not found_any_branch) else False), comp, f"AllOf conjunction includes {what}",
                   reason="sibling keywords, allOf, oneOf, anyOf and not are all conjoined")
     res.judge(True if (has("_compose_elements(AllOf, MV__)", comp)) else None, comp, "_compose_elements(AllOf, ...)", reason="the conjunction is an AllOf")
     res.floor("composition_rows", n_comp, 2)
@@ -1025,6 +1039,20 @@ def t6(ctx, res):
         ok = bool(val_ok and key_ok and guard_ok) if (val_ok or key_ok) else ok
     res.judge(ok, po, "synthetic required properties", reason="every required name without a declared property gets a synthetic "
                                                               "required property keyed by the same mapped name")
+    # ... but its element must be what Draft 6 applies to an undeclared name: the matching patternProperties and
+    # otherwise additionalProperties - not the accept-anything schema
+    synth = [n for n in walk_own(view(po, ctx.prog).body) if isinstance(n, ast.Call) and dotted(n.func) == "_Property" and n.args
+             and any(k.arg == "required" and norm(k.value) == "True" for k in n.keywords)]
+    if synth:
+        unconditional_any = all(norm(c.args[0]) == "Element()" for c in synth)
+        consults = any("additionalProperties" in norm(c.args[0]) or "patternProperties" in norm(c.args[0]) or "additional" in norm(c.args[0])
+                       for c in synth)
+        res.judge(True if consults else (False if unconditional_any else None), po,
+                  "_Property(Element(), required=True, source=key) for a required name without declaration",
+                  reason="a name that is only listed in `required` becomes a DECLARED property with the accept-anything schema, so "
+                         "additionalProperties / patternProperties no longer apply to it: {'type': 'object', 'required': ['a'], "
+                         "'additionalProperties': false} accepts {'a': 1}, which Draft 6 rejects")
+
 
 
 # ---------------------------------------------------------------------- T7
@@ -1140,7 +1168,12 @@ def t10(ctx, res):
             std_names |= set(got)
     st = ctx.func("_get_statham_imports")
     st_names = set()
-    for n in walk_own(st.body):
+    st_bodies = list(st.body)
+    for site in ctx.inf.sites(st)[0]:
+        c_ = getattr(site, "callee", None)
+        if site.kind == "call" and c_ is not None and c_.module is st.module and c_.name.startswith("_") and c_.name not in ("_get_element_imports",):
+            st_bodies += list(c_.body)
+    for n in walk_own(st_bodies):
         if isinstance(n, (ast.If, ast.IfExp)) and isinstance(n.test, ast.Compare) and isinstance(n.test.ops[0], ast.In) \
                 and isinstance(n.test.left, ast.Constant):
             branch = n.body if isinstance(n.body, list) else [n.body]
@@ -1343,7 +1376,8 @@ def t15(ctx, res):
         tainted = {dparam}
         for _ in range(3):
             for n_ in walk_own(sj.body):
-                if isinstance(n_, (ast.For, ast.comprehension)) and any(isinstance(x, ast.Name) and x.id in tainted for x in ast.walk(n_.iter)):
+                # statement-level loops only: comprehension variables are scoped and often re-use a name
+                if isinstance(n_, ast.For) and any(isinstance(x, ast.Name) and x.id in tainted for x in ast.walk(n_.iter)):
                     tainted |= {x.id for x in ast.walk(n_.target) if isinstance(x, ast.Name)}
         covers = any(isinstance(x, ast.Name) and x.id in tainted for n_ in walk_own(sj.body)
                      if isinstance(n_, ast.Call) and dotted(n_.func) == "get_object_classes" for a in n_.args for x in ast.walk(a))
@@ -1352,6 +1386,41 @@ def t15(ctx, res):
                   reason="an element passed in `definitions` is serialized with '$ref's to the object classes it contains, but "
                          "classes are only collected from the roots: serialize_json(Root, definitions={'Foo': Some}) with "
                          "Some.o: Other emits a dangling '#/definitions/Other'")
+    # ... and "nothing refers to the first root" must look at the supplied definitions as well
+    if dparam is not None and verdict is True and detail.get("filters") and serialized_defs:
+        vfull = view(sj, ctx.prog).body
+        sees_defs = False
+        found_ref_iter = False
+        for b in builders(vfull):
+            if b.kind != "dict" or b.key is None or "__name__" not in norm(b.key):
+                continue
+            for t_, pol_ in b.guards:
+                for x in ast.walk(t_):
+                    if isinstance(x, ast.comprehension):
+                        found_ref_iter = True
+                        if any(isinstance(y, ast.Name) and y.id in tainted for y in ast.walk(x.iter)):
+                            sees_defs = True
+                    if isinstance(x, ast.Name) and isinstance(x.ctx, ast.Load):
+                        # a collection kept in a local (not inlined because it is extended afterwards)
+                        for n_ in walk_own(sj.body):
+                            tgt_ = None
+                            if isinstance(n_, ast.AugAssign) and isinstance(n_.target, ast.Name):
+                                tgt_, val_ = n_.target.id, n_.value
+                            elif isinstance(n_, ast.Call) and isinstance(n_.func, ast.Attribute) and n_.func.attr in ("extend", "append") \
+                                    and isinstance(n_.func.value, ast.Name):
+                                tgt_, val_ = n_.func.value.id, n_
+                            elif isinstance(n_, (ast.Assign, ast.AnnAssign)) and n_.value is not None:
+                                t0_ = n_.targets[0] if isinstance(n_, ast.Assign) else n_.target
+                                if isinstance(t0_, ast.Name):
+                                    tgt_, val_ = t0_.id, n_.value
+                            if tgt_ == x.id:
+                                found_ref_iter = True
+                                if any(isinstance(y, ast.Name) and y.id in tainted for y in ast.walk(val_)):
+                                    sees_defs = True
+        res.judge(True if sees_defs else (False if found_ref_iter else None), sj,
+                  "referenced = children of the roots AND of the supplied definitions",
+                  reason="the first root is left out of `definitions` when no ROOT refers to it, but a supplied definition may: "
+                         "serialize_json(A, definitions={'lst': Array(A)}) emits '#/definitions/A' without defining A")
     res.judge(verdict, sj, "definitions = {cls.__name__: ... for every reachable object class}", detail=detail,
               reason="the first root is left out of `definitions` unconditionally, but another root may refer to it "
                      "(serialize_json(A, B) with B.a: A emits a dangling '#/definitions/A')")
@@ -1388,3 +1457,18 @@ def t16(ctx, res):
               reason="caller-supplied definitions are merged into the same mapping as the object classes, keyed by caller-chosen "
                      "names, with no clash test: serialize_json(Outer, definitions={'Inner': Integer()}) replaces the class "
                      "Inner that '#/definitions/Inner' refers to")
+
+
+@rule("T17", "the false schema can be serialized as a root")
+def t17(ctx, res):
+    sj = ctx.func("serialize_json")
+    se = ctx.func("_serialize_element")
+    non_mapping = [norm(r.value) for r in walk_own(se.body) if isinstance(r, ast.Return) and isinstance(r.value, ast.Constant)]
+    spreads = [n for n in walk_own(view(sj, ctx.prog).body) if isinstance(n, ast.Dict) and any(k is None for k in n.keys)]
+    spread_of_root = any(k is None and ("_serialize_element" in norm(v) or "serialize(" in norm(v)) for n in spreads
+                         for k, v in zip(n.keys, n.values))
+    guarded = any(isinstance(n, ast.Call) and dotted(n.func) == "isinstance" and "Nothing" in norm(n) for n in walk_own(sj.body))
+    res.judge(True if (not non_mapping or not spread_of_root or guarded) else False, sj, "{**serialize(primary), 'definitions': ...}",
+              detail={"non_mapping_returns_of__serialize_element": non_mapping},
+              reason="_serialize_element answers the false schema with the constant False, which serialize_json spreads into a "
+                     "mapping: serialize_json(Nothing()) raises TypeError instead of yielding a document")
